@@ -16,17 +16,37 @@ fn valid_p<I: Inp>(i: &mut I) -> f64 {
     p
 }
 
+/// normal double or zero (not subnormal)
+fn normal_or_zero(x: f64) -> bool {
+    x == 0.0 || x.abs() >= f64::MIN_POSITIVE
+}
+
+/// p with at most 13 significant bits in {0} U [2^-12, 1] (contains every m/4096)
+fn grid_p<I: Inp>(i: &mut I) -> f64 {
+    let p = i.f64();
+    vassume!(i, p >= 0.0 && p <= 1.0);
+    vassume!(i, p == 0.0 || p >= 0.000244140625);
+    vassume!(i, p.to_bits() & ((1u64 << 40) - 1) == 0);
+    p
+}
+
 /// streams of up to N <= 5 observations from new(p): bookkeeping and range after every observation
 fn small_stream<I: Inp, const N: usize>(i: &mut I) {
     let p = valid_p(i);
+    small_stream_on::<I, N>(i, p, false)
+}
+
+fn small_stream_on<I: Inp, const N: usize>(i: &mut I, p: f64, lattice: bool) {
     let mut q = Quantile::new(p);
     vassert!(i, q.len() == 0 && q.is_empty(), "C15:new-is-empty");
     vassert!(i, q.quantile().is_nan(), "C15:empty-quantile-is-nan");
     vassert!(i, beq(q.p(), p), "C15:p-reads-back-exactly");
     let mut lo = f64::INFINITY;
     let mut hi = f64::NEG_INFINITY;
+    let mut all_normal = true;
     for j in 0..N {
-        let x = obs(i);
+        let x = if lattice { (i.i16() as f64) * 0.25 } else { obs(i) };
+        all_normal = all_normal && normal_or_zero(x);
         q.add(x);
         if x < lo { lo = x; }
         if x > hi { hi = x; }
@@ -35,7 +55,12 @@ fn small_stream<I: Inp, const N: usize>(i: &mut I) {
         vassert!(i, beq(q.p(), p), "C15:p-reads-back-exactly");
         let r = q.quantile();
         vassert!(i, !r.is_nan(), "C15:quantile-nan-only-when-empty");
-        vassert!(i, lo <= r && r <= hi, "C15:quantile-within-data-range");
+        if all_normal {
+            vassert!(i, lo <= r && r <= hi, "C15:quantile-within-data-range");
+        } else {
+            // averaging two subnormal order statistics rounds each half to even first: see known_findings.json
+            vassert!(i, lo <= r && r <= hi, "C15:quantile-within-data-range-subnormal-observations");
+        }
         vassert!(i, q.estimate() == r, "C15:estimate-is-quantile");
     }
     if N == 5 {
@@ -126,6 +151,9 @@ harnesses! {
     fn stream3 [8] (i) { small_stream::<I, 3>(i); }
     fn stream4 [8] (i) { small_stream::<I, 4>(i); }
     fn stream5 [8] (i) { small_stream::<I, 5>(i); }
+    fn lat_stream3 [8] (i) { let p = grid_p(i); small_stream_on::<I, 3>(i, p, true); }
+    fn lat_stream4 [8] (i) { let p = grid_p(i); small_stream_on::<I, 4>(i, p, true); }
+    fn lat_stream5 [8] (i) { let p = grid_p(i); small_stream_on::<I, 5>(i, p, true); }
     fn new_invalid [2] (i) {
         let p = i.f64();
         vassume!(i, !(p >= 0.0 && p <= 1.0));
